@@ -15,6 +15,7 @@ import (
 	"io"
 	"os"
 	"sort"
+	"strings"
 	"time"
 
 	"verif/internal/proto"
@@ -159,6 +160,22 @@ func main() {
 		ck.Run(c)
 		c.enc.Encode(c.Sum)
 		w.Flush()
+	case "px":
+		// debugging aid: worker px <init> <program with \n escapes> [cfg-prefix]
+		in := pxInitByID(os.Args[2])
+		text := strings.ReplaceAll(os.Args[3], "\\n", "\n") + "\n"
+		ref := refRun(text, in)
+		fmt.Printf("reference: wellformed=%v %s err=%q steps=%d regs t0=%d t1=%d t2=%d ra=%d mem[0..7]=%v mem[64..67]=%v mem[128..131]=%v\n", ref.WellFormed, ref.Why, ref.Err, ref.Steps,
+			ref.Regs[5], ref.Regs[6], ref.Regs[7], ref.Regs[1], memSlice(ref.Mem, 0, 8), memSlice(ref.Mem, 64, 68), memSlice(ref.Mem, 128, 132))
+		for i := range pxConfigs {
+			cfg := &pxConfigs[i]
+			if len(os.Args) > 4 && !strings.HasPrefix(cfg.Name, os.Args[4]) {
+				continue
+			}
+			out := pxExec(cfg, text, in, &ref, false, nil, nil)
+			fmt.Printf("%-9s %-16s cycles=%-6d t0=%d t1=%d t2=%d ra=%d mem[0..7]=%v mem[64..67]=%v mem[128..131]=%v %s\n", cfg.Name, out.Class, out.Cycles,
+				out.Regs[5], out.Regs[6], out.Regs[7], out.Regs[1], memSlice(out.Mem, 0, 8), memSlice(out.Mem, 64, 68), memSlice(out.Mem, 128, 132), out.Detail)
+		}
 	case "replay":
 		in, _ := io.ReadAll(os.Stdin)
 		var rp proto.Replay
@@ -188,4 +205,11 @@ func guard(f func() (string, string)) (class, detail string) {
 		}
 	}()
 	return f()
+}
+
+func memSlice(m []int8, a, b int) []int8 {
+	if len(m) < b {
+		return nil
+	}
+	return m[a:b]
 }
